@@ -838,7 +838,10 @@ def rule_partial_contraction_inds(ctx):
 
 
 # ------------------------------------------------------------- view-accrual
-SELECTORS = ("select", "select_any", "select_all", "select_neighbors", "select_local", "_select_tids", "_select_without_tids", "select_sites")
+SELECTORS = ("select", "select_any", "select_all", "select_neighbors", "select_local", "_select_tids", "_select_local_tids", "_select_without_tids", "select_sites")
+
+
+ACCRUING_WITH_OPTION = {"gauge_all_canonize_", "gauge_all_simple_", "gauge_all_belief_propagation_", "gauge_all_", "canonize_around_", "_canonize_around_tids"}
 
 
 def rule_view_accrual(ctx):
@@ -857,7 +860,20 @@ def rule_view_accrual(ctx):
             if isinstance(x, ast.Assign) and len(x.targets) == 1 and isinstance(x.targets[0], ast.Name):
                 defs.setdefault(x.targets[0].id, []).append(x)
         for c in ast.walk(g.node):
-            if not (isinstance(c, ast.Call) and isinstance(c.func, ast.Attribute) and c.func.attr in ("equalize_norms_", "equalize_norms", "strip_exponent")):
+            if not (isinstance(c, ast.Call) and isinstance(c.func, ast.Attribute)):
+                continue
+            indirect = False
+            if c.func.attr in ACCRUING_WITH_OPTION:
+                # in-place gauging routines accrue into their receiver's exponent when handed equalize_norms: explicitly, or through
+                # an open **kwargs the caller forwards (the option is then the user's to give)
+                explicit = next((k.value for k in c.keywords if k.arg == "equalize_norms"), None)
+                opaque = any(k.arg is None for k in c.keywords)
+                if explicit is None and not opaque:
+                    continue
+                if explicit is not None and const_value(explicit, 1) in (False, None):
+                    continue
+                indirect = True
+            elif c.func.attr not in ("equalize_norms_", "equalize_norms", "strip_exponent"):
                 continue
             if c.func.attr == "equalize_norms" and not any(k.arg == "inplace" and const_value(k.value, None) is True for k in c.keywords):
                 continue
@@ -877,6 +893,12 @@ def rule_view_accrual(ctx):
                         # is the view's exponent ever read back afterwards?
                         read_back = any(isinstance(y, ast.Attribute) and y.attr == "exponent" and src_of(y.value) == recv.id and y.lineno > c.lineno for y in ast.walk(g.node))
                         returned = any(isinstance(y, ast.Return) and y.value is not None and recv.id in {z.id for z in ast.walk(y.value) if isinstance(z, ast.Name)} for y in ast.walk(g.node))
+                        if returned and indirect and not g.name.lstrip("_").startswith(("select", "partition")):
+                            # handing the view back does not help when the callers work on the kept network: the accrual has to be
+                            # folded into the kept network here (self.exponent / <kept>.exponent written from the view's)
+                            folded = any(isinstance(y, ast.Assign) and any(isinstance(t, ast.Attribute) and t.attr == "exponent" for t in y.targets)
+                                         and any(isinstance(z, ast.Attribute) and z.attr == "exponent" and src_of(z.value) == recv.id for z in ast.walk(y.value)) for y in ast.walk(g.node))
+                            returned = folded
                         if not read_back and not returned:
                             temp = f"{recv.id} = {src_of(v)[:30]}"
             if c.func.attr == "strip_exponent" and temp is None:
